@@ -4,8 +4,11 @@ import (
 	"bufio"
 	"fmt"
 	"go/ast"
+	"go/constant"
+	"go/importer"
 	"go/parser"
 	"go/token"
+	"go/types"
 	"os"
 	"path/filepath"
 	"reflect"
@@ -31,6 +34,34 @@ func translateAttrNames(repo string) (vals map[string]uint64, order []string, na
 	}
 	vals = map[string]uint64{}
 	names = map[string]string{}
+	var constNames []string
+	defer func() {
+		// the constants' values as the compiler computes them (literals, iota expressions, ...): the package is
+		// type-checked and the constant values read from go/types
+		var files []*ast.File
+		ms, _ := filepath.Glob(filepath.Join(repo, "attr", "*.go"))
+		for _, m := range ms {
+			if strings.HasSuffix(m, "_test.go") || strings.HasPrefix(filepath.Base(m), "make_") {
+				continue
+			}
+			pf, err := parser.ParseFile(fset, m, nil, 0)
+			if err != nil {
+				die(err)
+			}
+			files = append(files, pf)
+		}
+		pkg, err := (&types.Config{Importer: importer.ForCompiler(fset, "source", nil), Error: func(error) {}}).Check("attr", fset, files, nil)
+		if pkg == nil {
+			die(err)
+		}
+		for _, n := range constNames {
+			if cst, ok := pkg.Scope().Lookup(n).(*types.Const); ok {
+				if v, exact := constant.Uint64Val(cst.Val()); exact {
+					vals[n] = v
+				}
+			}
+		}
+	}()
 	for _, d := range f.Decls {
 		gd, ok := d.(*ast.GenDecl)
 		if !ok {
@@ -42,16 +73,8 @@ func translateAttrNames(repo string) (vals map[string]uint64, order []string, na
 				continue
 			}
 			if gd.Tok == token.CONST {
-				for i, n := range vs.Names {
-					if i < len(vs.Values) {
-						if bl, ok := vs.Values[i].(*ast.BasicLit); ok {
-							v, err := strconv.ParseUint(bl.Value, 0, 64)
-							if err != nil {
-								die(err)
-							}
-							vals[n.Name] = v
-						}
-					}
+				for _, n := range vs.Names {
+					constNames = append(constNames, n.Name)
 				}
 			}
 			if gd.Tok == token.VAR && len(vs.Names) == 1 && vs.Names[0].Name == "attrname" {
